@@ -1,7 +1,11 @@
 (* Model/ParserGrammar.v — core/src/defaults/parser.rs: parse_file and everything below it.
    Part 1 (Section Core, first half): the parser state of InternalDelphiLogicalLineParser, its
    primitives and all the *leaf* loops (loops that only call other leaves), each with its own fuel.
-   Part 2: the mutually recursive grammar, defunctionalised into ONE `Fixpoint run`.
+   Part 2: the mutually recursive grammar, defunctionalised: inductive `call` (entry points; closures
+   passed as `action` are `action` values, context-ending predicates are `cpred` values with the
+   evaluator `eval_pred`), the arms as definitions `arm_*`/`sa_*`/`st_*` over the recursive callback R
+   (Section Arms), and ONE `Fixpoint run` that dispatches with R := run (fuel-1).  Out of fuel =
+   E_fuel; a Rust panic site = E_panic <site>.
    Part 3 (after the section): parse_file, consolidate_pass_lines, the directive lines.
 
    Kernel by construction: result_lines' token lists, current_line, pass_index and
